@@ -31,6 +31,13 @@ CONV = {"Entity": [("wasGeneratedBy", "Generation"), ("wasInvalidatedBy", "Inval
 NO_ID_KINDS = ("Specialization", "Alternate", "Mention", "Membership")
 
 
+def ncname(s):
+    out = "".join(ch if (ch.isalnum() or ch in "_-.") else "_" for ch in s)
+    if not out or not (out[0].isalpha() or out[0] == "_"):
+        out = "n" + out
+    return out
+
+
 class DocBuilder:
     """opts:
        clash      probability of registering a clash-prone namespace
@@ -46,7 +53,7 @@ class DocBuilder:
         self.w = w
         self.o = dict(clash=0.2, foreign=0.15, value_kinds=None, repeat_id=0.2, malformed=0.05,
                       paths=("new_record", "factory", "conv"), defaults=0.3, bare=True, fulluri=True,
-                      multi=0.2, anon=0.5, dup_formal=0.06)
+                      multi=0.2, anon=0.5, dup_formal=0.06, xml=False, subtypes=0.0)
         self.o.update(opts)
         self.ids = {}        # scope -> list of identifiers used (QualifiedName objects as returned)
         self.elems = {}      # scope -> list of (handle, kind)
@@ -153,7 +160,23 @@ class DocBuilder:
         if k < 0.3:
             l = g.choice(PROV_EXTRA)
             return PROV[l] if g.chance(0.6) else "prov:" + l
-        return self.fresh_name(c)
+        n = self.fresh_name(c)
+        if self.o["xml"]:
+            # attribute names become XML element names: local part must be an NCName
+            if isinstance(n, QualifiedName):
+                n = QualifiedName(n.namespace, ncname(n.localpart))
+            elif isinstance(n, str):
+                if n.startswith(("http", "urn")):
+                    # full-URI spelling: the split between namespace and local part is the manager's choice
+                    nss = self.scope_namespaces(c)
+                    ns = g.choice(nss) if nss else Namespace("ex", "http://example.org/")
+                    n = QualifiedName(Namespace(ns.prefix, ns.uri), ncname(g.local()))
+                elif ":" in n:
+                    p, l = n.split(":", 1)
+                    n = p + ":" + ncname(l)
+                else:
+                    n = ncname(n)
+        return n
 
     def other_attrs(self, c, n=None):
         g = self.g
@@ -162,8 +185,17 @@ class DocBuilder:
         for _ in range(n):
             name = self.attr_name(c)
             nvals = 2 if g.chance(self.o["multi"]) else 1
+            is_label = (isinstance(name, QualifiedName) and name.uri == PROV["label"].uri) or name == "prov:label"
+            is_type = (isinstance(name, QualifiedName) and name.uri == PROV["type"].uri) or name == "prov:type"
             for _ in range(nvals):
-                out.append((name, g.value(self.scope_namespaces(c), self.o["value_kinds"])))
+                if self.o["xml"] and is_label:
+                    v = g.string() if g.chance(0.6) else Literal(g.string(), langtag=g.choice(["en", "fr"]))
+                elif is_type and g.chance(self.o["subtypes"]):
+                    v = PROV[g.choice(["Person", "Organization", "SoftwareAgent", "Plan", "Collection", "EmptyCollection",
+                                       "Revision", "Quotation", "PrimarySource", "Bundle"])]
+                else:
+                    v = g.value(self.scope_namespaces(c), self.o["value_kinds"])
+                out.append((name, v))
         return out
 
     def formal_args(self, c, kind, mask_p=0.6):
